@@ -175,8 +175,8 @@ func runC15(c *Ctx) {
 			}
 		}
 		c.Ob("C15-D2", name+"/single-failed-site", fn.Pos(), n == 1, fmt.Sprintf("%d reconnect_failed sites (expected exactly 1)", n))
-		limit := []Assume{{`\(m\.reconnectionAttempts > 0\)`, true}, {`\(attempts >= m\.reconnectionAttempts\)`, true}}
-		under := []Assume{{`\(m\.reconnectionAttempts > 0\)`, true}, {`\(attempts >= m\.reconnectionAttempts\)`, false}, {`\(m\.reconnectionAttempts == 0\)`, false}}
+		limit := []Assume{{`\(m\.reconnectionAttempts > 0\)`, true}, {`\((attempts|m\.backoff\.attempts\(\)) >= m\.reconnectionAttempts\)`, true}}
+		under := []Assume{{`\(m\.reconnectionAttempts > 0\)`, true}, {`\((attempts|m\.backoff\.attempts\(\)) >= m\.reconnectionAttempts\)`, false}, {`\(m\.reconnectionAttempts == 0\)`, false}}
 		state := []Assume{{`\(m\.state != 3\)`, false}, {`m\.skipReconnect`, false}}
 		r1, t1 := PrunedCanReach(fn, nil, append(under, state...), isFail, nil)
 		c.Ob("C15-D2", name+"/failed-only-at-limit", fn.Pos(), !r1, "reconnect_failed is reachable although the attempt limit is not reached: "+trailString(p, t1))
